@@ -1,3 +1,364 @@
 package main
 
-func runCheck(repo, verifDir, prop, tier, evidence string, timeout int, verbose bool) int { return 2 }
+// Property checks: select the contracts that carry a property, discharge their obligations, decide
+// VIOLATION / KNOWN-FINDING / pass, write evidence and replay files.
+
+import (
+	"encoding/json"
+	"fmt"
+	"os"
+	"path/filepath"
+	"regexp"
+	"sort"
+	"strconv"
+	"strings"
+	"time"
+)
+
+type KnownFinding struct {
+	Property    string   `json:"property"`
+	ID          string   `json:"id"`
+	Obligations []string `json:"obligations"` // obligation names (exact) that carry this finding
+	What        string   `json:"what"`
+	Input       string   `json:"input"`
+	Status      string   `json:"status"` // "open" or "fixed"
+	Commit      string   `json:"commit,omitempty"`
+}
+
+type KnownFile struct {
+	Findings []KnownFinding `json:"findings"`
+}
+
+func loadKnown(verifDir string) *KnownFile {
+	kf := &KnownFile{}
+	b, err := os.ReadFile(filepath.Join(verifDir, "known_findings.json"))
+	if err == nil {
+		json.Unmarshal(b, kf)
+	}
+	return kf
+}
+
+func hasProp(ps []string, p string) bool {
+	for _, q := range ps {
+		if q == p {
+			return true
+		}
+	}
+	return false
+}
+
+type checkRun struct {
+	prop     string
+	tier     string
+	results  []*FuncResult
+	obls     []*Obligation
+	faults   []string
+	assumes  []string
+}
+
+func runCheck(repo, verifDir, prop, tier, evidence string, timeout int, verbose bool) int {
+	t0 := time.Now()
+	seed := 0
+	if s := os.Getenv("VERIF_SEED"); s != "" {
+		seed, _ = strconv.Atoi(s)
+	}
+	if t := os.Getenv("VERIF_TIER"); t == "quick" || t == "thorough" {
+		tier = t
+	}
+	if evidence == "" {
+		evidence = filepath.Join(verifDir, "evidence", prop+".json")
+	}
+	p, err := LoadProgram(repo, []string{"./..."}, map[string]string{"*": filepath.Join(verifDir, "contracts", "std")})
+	if err != nil {
+		fmt.Println("TOOL-FAULT: cannot load", repo+":", err)
+		return 2
+	}
+	tLoad := time.Since(t0).Seconds()
+	run := &checkRun{prop: prop, tier: tier}
+	// functions
+	var keys []string
+	for k, fc := range p.CS.Funcs {
+		if hasProp(fc.Props, prop) {
+			keys = append(keys, k)
+		}
+	}
+	sort.Strings(keys)
+	for _, k := range keys {
+		fc := p.CS.Funcs[k]
+		res := p.VerifyFunc(fc)
+		run.results = append(run.results, res)
+	}
+	for _, l := range p.CS.Lemmas {
+		if hasProp(l.Props, prop) {
+			run.results = append(run.results, p.VerifyLemma(l))
+		}
+	}
+	if len(run.results) == 0 {
+		fmt.Printf("TOOL-FAULT: no contract carries property %s\n", prop)
+		return 2
+	}
+	for _, r := range run.results {
+		if r.Fault != "" {
+			run.faults = append(run.faults, fmt.Sprintf("%s: %s", r.Name, r.Fault))
+		}
+		n := 0
+		for _, o := range r.Obls {
+			if o.Props == nil || hasProp(o.Props, prop) {
+				run.obls = append(run.obls, o)
+				n++
+			}
+		}
+		if n == 0 && r.Fault == "" {
+			run.faults = append(run.faults, fmt.Sprintf("%s: zero obligations generated", r.Name))
+		}
+	}
+	tGen := time.Since(t0).Seconds() - tLoad
+	cfg := solverCfg(tier, timeout)
+	SolveAll(cfg, run.obls)
+	// second chance for undecided obligations: longer timeout, whole portfolio (guards against load spikes)
+	var retry []*Obligation
+	for _, o := range run.obls {
+		if !o.Discharged() && (o.Status == "timeout" || o.Status == "unknown" || o.Status == "error") && !o.Cover {
+			o.Status = ""
+			retry = append(retry, o)
+		}
+	}
+	if len(retry) > 0 {
+		queryCache.Range(func(k, v interface{}) bool { queryCache.Delete(k); return true })
+		cfg2 := solverCfg(tier, timeout)
+		if cfg2.Timeout < 40*time.Second {
+			cfg2.Timeout = 40 * time.Second
+		}
+		cfg2.FirstTry = 20 * time.Second
+		SolveAll(cfg2, retry)
+	}
+	tSolve := time.Since(t0).Seconds() - tLoad - tGen
+
+	known := loadKnown(verifDir)
+	type failure struct {
+		o     *Obligation
+		known *KnownFinding
+	}
+	var fails []failure
+	discharged, total := 0, 0
+	coverUndecided := 0
+	byBackend := map[string]int{}
+	solverTime := 0.0
+	for _, o := range run.obls {
+		solverTime += o.Time
+		if o.Cover {
+			switch o.Status {
+			case "sat":
+				total++
+				discharged++
+				byBackend[baseSolver(o.Solver)]++
+			case "unsat":
+				run.faults = append(run.faults, fmt.Sprintf("%s: vacuous (hypotheses unsatisfiable)", o.Name))
+			default:
+				coverUndecided++
+			}
+			continue
+		}
+		total++
+		if o.Discharged() {
+			discharged++
+			byBackend[baseSolver(o.Solver)]++
+			continue
+		}
+		var kfound *KnownFinding
+		for i := range known.Findings {
+			k := &known.Findings[i]
+			if k.Property != prop || k.Status != "open" {
+				continue
+			}
+			for _, n := range k.Obligations {
+				if n == o.Name {
+					kfound = k
+				}
+			}
+		}
+		fails = append(fails, failure{o, kfound})
+	}
+	exit := 0
+	violations := 0
+	var knownHit []string
+	seenKnown := map[string]bool{}
+	replayDir := filepath.Join(verifDir, "replay", prop)
+	os.RemoveAll(replayDir)
+	reported := map[string]bool{}
+	for _, f := range fails {
+		if f.known != nil {
+			if !seenKnown[f.known.ID] {
+				seenKnown[f.known.ID] = true
+				fmt.Printf("KNOWN-FINDING: property=%s %s: %s\n", prop, f.known.ID, f.known.What)
+				knownHit = append(knownHit, f.known.ID+": "+f.known.What)
+			}
+			continue
+		}
+		if reported[f.o.Name] {
+			continue
+		}
+		reported[f.o.Name] = true
+		violations++
+		exit = 1
+		os.MkdirAll(replayDir, 0o755)
+		file := filepath.Join(replayDir, sanitize(f.o.Name)+".json")
+		rep := buildReplay(p, repo, verifDir, prop, f.o)
+		b, _ := json.MarshalIndent(rep, "", " ")
+		os.WriteFile(file, b, 0o644)
+		suffix := ""
+		if !rep.Reproduced {
+			suffix = " no-failing-input-found"
+		}
+		fmt.Printf("failed obligation %s (%s, %s) at %s: %s\n", f.o.Name, f.o.Status, f.o.Solver, f.o.Pos, f.o.Text)
+		fmt.Printf("VIOLATION property=%s replay=%s%s\n", prop, file, suffix)
+	}
+	for _, ft := range run.faults {
+		fmt.Println("TOOL-FAULT:", ft)
+		if exit == 0 {
+			exit = 2
+		}
+	}
+	// evidence
+	var funcs []map[string]interface{}
+	var externs, assumptions, bounded, outside, notes []string
+	extSet := map[string]bool{}
+	for _, r := range run.results {
+		funcs = append(funcs, map[string]interface{}{"name": r.Pkg + "." + r.Name, "mode": r.Mode, "paths": r.Paths,
+			"obligations": len(r.Obls), "callees_by_contract": r.Callees, "inlined": r.Inlined})
+		for _, e := range r.Externs {
+			if !extSet[e] {
+				extSet[e] = true
+				externs = append(externs, e)
+			}
+		}
+		for _, a := range r.Assumes {
+			assumptions = append(assumptions, r.Name+": "+a)
+		}
+		bounded = append(bounded, r.Bounded...)
+		if r.OutOfSubset {
+			outside = append(outside, r.Name)
+		}
+		for _, n := range r.Notes {
+			notes = append(notes, r.Name+": "+n)
+		}
+	}
+	sort.Strings(externs)
+	sorted := append([]*Obligation(nil), run.obls...)
+	sort.SliceStable(sorted, func(i, j int) bool { return sorted[i].Time > sorted[j].Time })
+	var slowest []map[string]interface{}
+	for i := 0; i < len(sorted) && i < 5; i++ {
+		slowest = append(slowest, map[string]interface{}{"name": sorted[i].Name, "s": round2(sorted[i].Time), "solver": sorted[i].Solver})
+	}
+	var samples []map[string]interface{}
+	kinds := map[string]bool{}
+	for _, o := range run.obls {
+		if len(samples) >= 8 {
+			break
+		}
+		if kinds[o.Kind] && len(samples) >= 4 {
+			continue
+		}
+		kinds[o.Kind] = true
+		samples = append(samples, map[string]interface{}{"name": o.Name, "kind": o.Kind, "clause": o.Text, "status": o.Status,
+			"solver": o.Solver, "smt_bytes": len(o.Query), "path": o.Trace, "pos": o.Pos})
+	}
+	trusted := []string{
+		"go/packages + go/ssa (x/tools v0.29.0) translation of the working tree",
+		"govc symbolic executor, contract translator and SMT printer (checked only by the must-fail corpus and replays)",
+		"SMT solvers: z3 4.8.12, z3 5.1.0 (z3-new), cvc5 1.0.x",
+		"machine assumption: no object larger than 2^48 bytes; integers: exact wrap-around semantics in int mode, bit-vectors in bv mode",
+		"spec functions denote the same mathematical function in both arithmetic modes (only constant shifts/masks are used in int mode)",
+	}
+	for _, e := range externs {
+		trusted = append(trusted, "extern contract (assumed): "+e)
+	}
+	assumptions = append(assumptions, p.CS.RawScan...)
+	level := "proof"
+	explanation := ""
+	if len(knownHit) > 0 || violations > 0 || len(bounded) > 0 {
+		level = "other"
+		explanation = fmt.Sprintf("contract-based deductive verification; %d of %d obligations discharged; open known findings: %v; bounded stand-ins: %v",
+			discharged, total, knownHit, bounded)
+	}
+	cov := map[string]interface{}{
+		"obligations": total, "discharged": discharged,
+		"checker_cmd": fmt.Sprintf("/verif/bin/govc check -repo %s -tier %s %s", repo, tier, prop),
+		"trusted_base": trusted, "functions_under_contract": funcs, "by_backend": byBackend,
+		"solver_time_s": round2(solverTime), "slowest": slowest, "bounded": bounded, "outside_subset": outside,
+		"known_findings": knownHit, "cover_undecided": coverUndecided, "samples": samples, "notes": notes,
+		"phase_s": map[string]float64{"load": round2(tLoad), "vcgen": round2(tGen), "solve": round2(tSolve)},
+		"tool_faults": run.faults,
+	}
+	if explanation != "" {
+		cov["explanation"] = explanation
+	}
+	ev := map[string]interface{}{
+		"property_id": prop, "tier": tier, "seed": seed, "level": level, "coverage": cov,
+		"assumptions": assumptions, "wall_s": round2(time.Since(t0).Seconds()), "violations": violations,
+	}
+	os.MkdirAll(filepath.Dir(evidence), 0o755)
+	b, _ := json.MarshalIndent(ev, "", " ")
+	os.WriteFile(evidence, b, 0o644)
+	fmt.Printf("%s: %d/%d obligations discharged over %d functions/lemmas (%s tier, %.1fs; load %.1fs, vcgen %.1fs, solve %.1fs)\n",
+		prop, discharged, total, len(run.results), tier, time.Since(t0).Seconds(), tLoad, tGen, tSolve)
+	if verbose {
+		for _, o := range run.obls {
+			if !o.Discharged() {
+				fmt.Printf("   undischarged: %s %s %s\n", o.Name, o.Status, o.Solver)
+			}
+		}
+	}
+	return exit
+}
+
+func baseSolver(s string) string {
+	if i := strings.IndexAny(s, "(+"); i >= 0 {
+		s = s[:i]
+	}
+	return s
+}
+
+func round2(f float64) float64 { return float64(int(f*100+0.5)) / 100 }
+
+var sanRe = regexp.MustCompile(`[^A-Za-z0-9_.-]+`)
+
+func sanitize(s string) string {
+	s = sanRe.ReplaceAllString(s, "_")
+	if len(s) > 150 {
+		s = s[:150]
+	}
+	return s
+}
+
+type Replay struct {
+	Property   string            `json:"property"`
+	Obligation string            `json:"obligation"`
+	Kind       string            `json:"kind"`
+	Clause     string            `json:"clause"`
+	Pos        string            `json:"pos"`
+	Path       string            `json:"path"`
+	Status     string            `json:"solver_status"`
+	Solver     string            `json:"solver"`
+	Inputs     map[string]string `json:"model_inputs,omitempty"`
+	Reproduced bool              `json:"reproduced"`
+	ReplayNote string            `json:"replay_note"`
+	Test       string            `json:"generated_test,omitempty"`
+	TestOutput string            `json:"test_output,omitempty"`
+	Query      string            `json:"smt_query"`
+	SolverOut  string            `json:"solver_output"`
+}
+
+func buildReplay(p *Program, repo, verifDir, prop string, o *Obligation) *Replay {
+	r := &Replay{Property: prop, Obligation: o.Name, Kind: o.Kind, Clause: o.Text, Pos: o.Pos, Path: o.Trace,
+		Status: o.Status, Solver: o.Solver, Query: o.Query, SolverOut: o.Status + "\n" + o.Model}
+	if len(r.Query) > 200000 {
+		r.Query = r.Query[:200000] + "\n; truncated"
+	}
+	if o.Status != "sat" {
+		r.ReplayNote = "the solver returned no model (" + o.Status + "): obligation undischarged, no failing input found"
+		return r
+	}
+	tryReplay(p, repo, verifDir, o, r)
+	return r
+}
